@@ -239,3 +239,43 @@ class cut:
         if self.ctx.mode == "sym":
             setattr(self.mod, self.attr, self.orig)
         return False
+
+
+def same_text(ctx, got, exp, label):
+    """claim that two strings are equal, comparing symbolic digit positions by value"""
+    from vf import shapes
+    if ctx.mode != "sym":
+        ctx.claim(label, got == exp)
+        return
+    shape_ok = (len(got) == len(exp)) and all(
+        (a == b) or ((a.isdigit() or shapes.is_pua(a)) and (b.isdigit() or shapes.is_pua(b))) for a, b in zip(got, exp))
+    ctx.claim(label + " (shape)", shape_ok)
+    if shape_ok:
+        pairs = [(shapes.digit_value(a), shapes.digit_value(b)) for a, b in zip(got, exp)
+                 if shapes.is_pua(a) or shapes.is_pua(b)]
+        ctx.claim(label + " (digits)", AND(*[p == q for p, q in pairs]) if pairs else True)
+
+
+class stub_now:
+    """datetime.now() is the environment: in the symbolic run it returns a fixed instant (the real run uses the clock;
+    harnesses only use it where the result does not depend on it)"""
+
+    def __init__(self, ctx, *fields):
+        self.ctx, self.fields = ctx, fields or (2001, 2, 3, 4, 5, 6, 7)
+
+    def __enter__(self):
+        if self.ctx.mode != "sym":
+            return self
+        D = self.ctx.dt.datetime
+        self.orig = D.__dict__["now"]
+        f = self.fields
+
+        def now(cls, tz=None):
+            return cls(*f, tzinfo=tz) if cls is not D else D.__new__(D, *f, tz)
+        D.now = classmethod(now)
+        return self
+
+    def __exit__(self, *a):
+        if self.ctx.mode == "sym":
+            self.ctx.dt.datetime.now = self.orig
+        return False
